@@ -739,6 +739,42 @@ theorem executed_final_from_start (ops : List HOp) (hs : seqRun true init ops = 
     finalAlong k ([] :: (hrun true init ops).map (·.2.m)) = true :=
   executed_final_along init ops inv_init hs k
 
+/-- the strict machine (the property as stated) keeps an executed record in EVERY history … -/
+theorem strict_keeps_executed (st : HState) (op : HOp) (k : Nat) (hk : lookup st.m k = .executed) :
+    lookup (hstepStrict st op).2.m k = .executed := by
+  cases op with
+  | outcome id grp ok f =>
+    by_cases hh : st.held = true
+    · simpa [hstepStrict, hh] using hk
+    · simp only [hstepStrict, hh, Bool.false_eq_true, if_false]
+      rcases storeStatus_lookup ⟨st.m, f⟩ ((keysOf st id grp).filter fun k => lookup st.m k != .executed)
+          (if ok then .executed else .failed) k with h | ⟨h, _⟩
+      · rw [h]; exact hk
+      · simp [List.mem_filter, hk] at h
+  | deliver ks f =>
+    have h := executed_final_unless_own_outcome st [.deliver ks f] k hk (by simp [noLaterOutcome, touches])
+    simpa [hstepStrict, hfinal] using h
+  | lost id grp => simpa [hstepStrict, hstep] using hk
+  | retry ds res dest f =>
+    have h := executed_final_unless_own_outcome st [.retry ds res dest f] k hk (by simp [noLaterOutcome, touches])
+    simpa [hstepStrict, hfinal] using h
+
+/-- … and it IS the code on every state satisfying the invariant (all in-flight records pending): the two machines
+    differ only on overlapping histories -/
+theorem strict_eq_of_inv (st : HState) (op : HOp) (hi : Inv st) : hstepStrict st op = hstep true st op := by
+  cases op with
+  | outcome id grp ok f =>
+    have hall : (keysOf st id grp).filter (fun k => lookup st.m k != .executed) = keysOf st id grp := by
+      apply List.filter_eq_self.2
+      intro k hk
+      simp only [keysOf, List.mem_map, List.mem_filter] at hk
+      obtain ⟨p, ⟨hp, _⟩, rfl⟩ := hk
+      simp [hi.pend p hp]
+    simp [hstepStrict, hstep, hall]
+  | deliver ks f => rfl
+  | lost id grp => rfl
+  | retry ds res dest f => rfl
+
 /-- the excluded point, stated rather than hidden: retrying a deposit whose execution is still in flight
     (non-sequential) lets a second execution start; when the first succeeds and the second fails late, the
     `executed` record is overwritten with `failed` -/
@@ -778,6 +814,15 @@ theorem mutex_free (st : HState) (ops : List HOp) (hf : st.held = false) :
 theorem asFound_hangs :
     ((hrun false init [.deliver [0] [true], .deliver [0] []]).map (·.1)) = [.selected none, .hang] := by
   decide
+
+/-- non-vacuity (multi-resource delivery): the groups of one delivery conclude independently -/
+example :
+    let ops := [HOp.deliver [0, 1] [], .outcome 0 [0] true [], .outcome 0 [1] false [],
+                .retry [⟨2, 97, 0, 0⟩, ⟨2, 97, 1, 1⟩] 97 2 [], .deliver [0, 1] []]
+    seqRun true init ops = true ∧
+    ((hrun true init ops).map fun (x : HRes × HState) => (lookup x.2.m 0, lookup x.2.m 1)) =
+      [(Status.pending, Status.pending), (.executed, .pending), (.executed, .failed), (.executed, .failed),
+       (.executed, .pending)] := by decide
 
 /-! #### non-vacuity -/
 
